@@ -168,3 +168,13 @@ def run(cx):
     if fd is not None:
         from .C06 import dec_minlen
         dec_minlen(cx, fd)
+
+
+_run_c1 = run
+
+
+def run(cx):
+    from .C19 import from_byte
+    _run_c1(cx)
+    # decoding of C1 (both encodings): tag, length, coordinate range and root selection
+    from_byte(cx)
